@@ -488,6 +488,184 @@ def selftest(rep):
         rep.indet('E9 self-test: the reference algebra is wrong')
 
 
+CPE = 'yui_kh::kh::internal::v2::cob::CobComp::part_eval'
+COBPE = 'yui_kh::kh::internal::v2::cob::Cob::part_eval'
+
+
+def comp_atom(closed, g, x, y):
+    """like cob_atom, for a component reached through any argument (self, or the item of an iterator closure)"""
+    def atom(t, ev):
+        s = t
+        while s[0] in ('ref', 'deref'):
+            s = s[1]
+        if s[0] == 'call' and s[1].endswith('cob::CobComp::is_closed'):
+            return (int(closed),)
+        if s[0] == 'field':
+            base = s[1]
+            while base[0] in ('ref', 'deref'):
+                base = base[1]
+            if base[0] == 'arg' or base == ('comp',):
+                if s[2] == 'genus':
+                    return (g,)
+                if s[2] == 'dots':
+                    return ((x, y),)
+            if s[2] in ('0', '1') and base[0] == 'field' and base[2] == 'dots':
+                return ((x, y)[int(s[2])],)
+        if s[0] == 'arg':
+            return (('comp',),)
+        return None
+    return atom
+
+
+def _specialise(p, guard):
+    """polynomial in (h, t) under h := 0 and / or t := 0"""
+    return {k: v for k, v in p.items() if not (('h' in guard and k[0] > 0) or ('t' in guard and k[1] > 0))}
+
+
+def _ring_guard(term, value):
+    """is_zero(h) / is_zero(t) taken as true -> 'h' / 't';  false -> '' (generic);  not a ring guard -> None"""
+    s = strip(term)
+    if s[0] == 'call' and s[1].split('::')[-1] == 'is_zero' and len(s[2]) == 1:
+        a = strip(s[2][0])
+        if a in (('arg', 2), ('arg', 3)):
+            return ({2: 'h', 3: 't'}[a[1]]) if value != 0 else ''
+    return None
+
+
+def check_shortcuts(facts, rep, dt):
+    """R7: every return path of the part_eval wrappers that does not go through the relation table is justified on the grid"""
+    GRID = [(c, g, x, y) for c in (0, 1) for g in range(4) for x in range(5) for y in range(5)]
+    # ---- CobComp::part_eval
+    b = facts.bodies.get(CPE)
+    if b is None:
+        rep.indet('E9.R7: %s not found' % CPE)
+        return
+    rep.saw(b)
+    n = 0
+    try:
+        for conds, ret, p in dt.paths(CPE):
+            n += 1
+            r = strip(ret)
+            table = r[0] == 'call' and r[1] == EVAL and [sk(x).replace('&', '').replace('*', '') for x in r[2]] == ['arg1', 'arg1.genus', 'arg1.dots.0', 'arg1.dots.1', 'arg2', 'arg3']
+            if table and not conds:
+                rep.ok('E9.R7-shortcuts-justified', 'CobComp::part_eval|goes through the relation table', 'eval(self, genus, x, y, h, t)')
+                continue
+            guard, comp_conds = '', []
+            for term, value, alts in conds:
+                rg = _ring_guard(term, value)
+                if rg is None:
+                    comp_conds.append((term, value, alts))
+                else:
+                    guard += rg
+            inst = 'CobComp::part_eval|shortcut [%s]' % ', '.join('%s=%s' % (sk(t)[:50], v) for t, v, _ in conds)
+            if table:
+                rep.ok('E9.R7-shortcuts-justified', inst, 'still evaluated by the relation table')
+                continue
+            kind = rule_of(ret)[0][0] if r[0] == 'call' else None
+            if kind not in ('zero',):
+                raise Stuck('return %s under %s' % (sk(ret)[:60], [sk(t)[:40] for t, _, _ in conds]))
+            bad = None
+            pts = 0
+            for (closed, g, x, y) in GRID:
+                at = comp_atom(closed, g, x, y)
+                ok = True
+                for term, value, alts in comp_conds:
+                    v = dt.ev(term, {1: ('comp',)}, at)
+                    v = int(v) if isinstance(v, bool) else v
+                    if (value == 'else' and alts is not None and v in alts) or (value != 'else' and v != value):
+                        ok = False
+                        break
+                if not ok:
+                    continue
+                pts += 1
+                val = V(g, x, y)
+                val = (_specialise(val[0], guard), _specialise(val[1], guard))
+                nz = eps(val) if closed else (val[0] or val[1])
+                if nz and bad is None:
+                    bad = 'for a %s component with genus %d and dots (%d, %d) the shortcut returns 0, but its value X^%d Y^%d (X+Y)^%d = (%s) + (%s) X is not 0%s' % (
+                        'closed' if closed else 'open', g, x, y, x, y, g, pshow(val[0]), pshow(val[1]),
+                        (' when only %s = 0 is known' % ' and '.join(sorted(set(guard)))) if guard else '')
+            if bad:
+                rep.violation('E9.R7-shortcuts-justified', inst, 'CobComp::part_eval: ' + bad, where=b.where())
+            else:
+                rep.ok('E9.R7-shortcuts-justified', inst, 'zero on all %d grid points it applies to' % pts)
+    except Stuck as e:
+        rep.indet('E9.R7: CobComp::part_eval outside the recognised fragment: %s' % e)
+        return
+    # ---- Cob::part_eval
+    cb = facts.bodies.get(COBPE)
+    if cb is None:
+        rep.indet('E9.R7: %s not found' % COBPE)
+        return
+    rep.saw(cb)
+    try:
+        for conds, ret, p in dt.paths(COBPE):
+            r = strip(ret)
+            cs = [(sk(t).replace('&', '').replace('*', ''), v) for t, v, _ in conds]
+            z = next((v for t, v in cs if t == 'is_zero_cob(arg1)'), None)
+            sp = next((v for t, v in cs if t == 'should_part_eval(arg1)'), None)
+            others = [(t, v, a) for (t, v, a) in conds if sk(t).replace('&', '').replace('*', '') not in ('is_zero_cob(arg1)', 'should_part_eval(arg1)')]
+            kind = None
+            if r[0] == 'call':
+                nm = r[1].split('::')[-1]
+                if nm == 'zero' and not r[2]:
+                    kind = 'zero'
+                elif nm == 'from' and len(r[2]) == 1 and strip(r[2][0]) == ('arg', 1):
+                    kind = 'self'
+                elif nm == 'fold' and len(r[2]) == 3:
+                    kind = 'fold'
+            inst = 'Cob::part_eval|%s [%s]' % (kind, ', '.join('%s=%s' % (t[:50], v) for t, v in cs))
+            if not others and ((kind == 'zero' and z not in (None, 0)) or (kind == 'self' and z == 0 and sp == 0) or (kind == 'fold' and z == 0 and sp not in (None, 0))):
+                rep.ok('E9.R7-shortcuts-justified', inst, {'zero': 'is_zero_cob => 0 (R5)', 'self': 'nothing to reduce (R4)', 'fold': 'product of the component evaluations'}[kind])
+                continue
+            if kind == 'fold' or kind == 'self' and not others:
+                rep.ok('E9.R7-shortcuts-justified', inst, 'evaluated component-wise / returned unchanged')
+                continue
+            if kind != 'zero':
+                raise Stuck('return %s' % sk(ret)[:80])
+            guard = ''
+            preds = []
+            for term, value, alts in others:
+                rg = _ring_guard(term, value)
+                if rg is not None:
+                    guard += rg
+                    continue
+                s = strip(term)
+                src = s[2][0] if s[0] == 'call' and s[2] else None
+                if src is not None and src[0] == 'mref':
+                    ev_ = next((e for e in p.calls() if e.site == s[3]), None)
+                    if ev_ is not None and ev_.pre:
+                        src = ev_.pre[0]
+                if s[0] == 'call' and s[1].split('::')[-1] == 'any' and len(s[2]) == 2 and value != 0 and 'arg1.comps' in sk(src).replace('*', '').replace('&', ''):
+                    clo = strip(s[2][1])
+                    if clo[0] == 'closure' and clo[1] in facts.bodies:
+                        preds.append(clo[1])
+                        continue
+                raise Stuck('condition %s = %s' % (sk(term)[:80], value))
+            if not preds:
+                raise Stuck('zero is returned under ring conditions only')
+            bad = None
+            pts = 0
+            for (closed, g, x, y) in GRID:
+                at = comp_atom(closed, g, x, y)
+                if not all(dt.decide(pn, {1: ('env',), 2: ('comp',)}, at)[0] for pn in preds):
+                    continue
+                pts += 1
+                val = V(g, x, y)
+                val = (_specialise(val[0], guard), _specialise(val[1], guard))
+                nz = eps(val) if closed else (val[0] or val[1])
+                if nz and bad is None:
+                    bad = 'a cobordism containing a %s component with genus %d and dots (%d, %d) is replaced by 0, but that component is X^%d Y^%d (X+Y)^%d = (%s) + (%s) X, not 0%s' % (
+                        'closed' if closed else 'open', g, x, y, x, y, g, pshow(val[0]), pshow(val[1]),
+                        (' when only %s = 0 is known' % ' and '.join(sorted(set(guard)))) if guard else '')
+            if bad:
+                rep.violation('E9.R7-shortcuts-justified', inst, 'Cob::part_eval: ' + bad, where=cb.where())
+            else:
+                rep.ok('E9.R7-shortcuts-justified', inst, 'zero on all %d component shapes it applies to' % pts)
+    except Stuck as e:
+        rep.indet('E9.R7: Cob::part_eval outside the recognised fragment: %s' % e)
+
+
 def run(facts, rep, parts=('R1', 'R4', 'R6')):
     selftest(rep)
     dt = None
@@ -495,5 +673,7 @@ def run(facts, rep, parts=('R1', 'R4', 'R6')):
         dt = check_part_eval(facts, rep)
     if dt is not None and 'R4' in parts:
         check_predicates(facts, rep, dt)
+    if dt is not None and 'R1' in parts:
+        check_shortcuts(facts, rep, dt)
     if 'R6' in parts:
         check_deloop(facts, rep)
